@@ -1002,3 +1002,82 @@ def field_transport(ctx, facts, rule):
             got.append("?")
     okm = got == ["a", "b", "prss.0", "prss.1"]
     ctx.ob(rule, "zkp_multiply:multiplies-what-it-records", okm, "multiplication_protocol(ctx, record, a, b, prss.0, prss.1)" if okm else f"the multiplication is given {got}, the segment records (a, b, prss.0, prss.1)", site_of(zb, mp[0][0]))
+
+
+# ---------------------------------------------------------------------------------------------
+def hash_cover(ctx, facts, rule="HASH-cover"):
+    """Every consistency check between helpers that compares hashes (shuffle verification, Fiat-Shamir challenges of the
+    multiplication proofs, proof-share hashes exchanged by the verifiers) is only as strong as the hash's coverage of
+    its input: an element that is not absorbed can be altered freely.  Honest runs cannot notice, both sides skip it."""
+    ctx.rule(f"{rule}: compute_hash_internal iterates its whole argument (into_iter of the parameter itself, loop left only when next() is None), serialises each element into the buffer and absorbs the whole buffer (Digest::update on the same hasher) on every path back to next(), and returns Hash(finalize()) of that hasher; compute_hash / compute_possibly_empty_hash return component 0 of compute_hash_internal(their whole argument), compute_hash only after the non-empty assertion; hash_to_field combines both hashes")
+    H = "helpers::hashing::"
+    b = facts.bodies.get(H + "compute_hash_internal")
+    if b is None:
+        return ctx.missing(rule, "compute_hash_internal")
+    ctx.count(bodies=1)
+    nx = [(bb, t) for bb, t in b.calls() if (F.callee(t)[0] or "").endswith("Iterator::next")]
+    it = [(bb, t) for bb, t in b.calls() if (F.callee(t)[0] or "").endswith("IntoIterator::into_iter")]
+    ser = [(bb, t) for bb, t in b.calls() if (F.callee(t)[0] or "").endswith("SerializeAs::serialize")]
+    upd = [(bb, t) for bb, t in b.calls() if re.search(r"Digest::update$|Update::update$", F.callee(t)[0] or "")]
+    fin = [(bb, t) for bb, t in b.calls() if re.search(r"Digest::finalize$", F.callee(t)[0] or "")]
+    if len(nx) != 1 or not it or not ser or not upd or len(fin) != 1:
+        return ctx.missing(rule, f"compute_hash_internal: one next / finalize and into_iter, serialize, update calls (found {len(nx)}/{len(fin)}, {len(it)}, {len(ser)}+{len(upd)})")
+    N = nx[0][0]
+    rets = [bb for bb in b.live_blocks() if b.term(bb)["k"] == "ret"]
+    src = flow.expr_of(b, nx[0][1]["args"][0], max_depth=10)       # what the loop draws from
+    whole = src == ("call", "std::iter::IntoIterator::into_iter", (("arg", 1),))
+    ctx.ob(rule, "hash:iterates-its-whole-argument", whole, "for x in input" if whole else "the hash loop does not iterate the argument itself (an adaptor such as take / skip / step_by / filter leaves elements out of the hash)", site_of(b, it[0][0]))
+    sw = flow.next_switch(b, b.term(N)["t"]) if "t" in b.term(N) else None
+    why = None
+    if sw is None:
+        why = "no match on the iterator's next()"
+    else:
+        arms = [x for x in b.succs(sw) if b.term(x)["k"] != "unreachable"]
+        some = [x for x in arms if N in b.reachable(x)]
+        if len(some) != 1:
+            why = "cannot tell the Some arm of the hash loop"
+        else:
+            S = some[0]
+            U = {bb for bb, t in upd}
+            # the element must be absorbed before the next one is fetched, and the loop may only be left through None
+            if N in b.reachable(S, avoid=frozenset(U)):
+                why = "an element can be fetched from the iterator without being absorbed by the hasher"
+            elif any(r in b.reachable(S, avoid=frozenset([N])) for r in rets):
+                why = "the hash loop can be left before the iterator is exhausted: the remaining elements are not hashed"
+    ctx.ob(rule, "hash:absorbs-every-element", why is None, "every element is serialised and absorbed; the loop ends only with the iterator" if why is None else why, site_of(b, N))
+    # serialize(x, buf) then update(sha, buf): same buffer, whole buffer, the element of this iteration
+    sa = [flow.expr_of(b, a, max_depth=8) for a in ser[0][1]["args"]]
+    ua = [flow.expr_of(b, a, max_depth=8) for a in upd[0][1]["args"]]
+    oks = "Iterator::next" in str(sa[0]) and "'as:Some'" in str(sa[0]) and len(ser) == 1
+    okb = len(upd) == 1 and sa[1] == ua[1] and sa[1][0] == "call" and sa[1][1].endswith("Default::default")
+    ctx.ob(rule, "hash:element->buffer->hasher", oks and okb, "x.serialize(&mut buf); sha.update(&buf)" if oks and okb else ("the value serialised is not the element the loop fetched" if not oks else "the hasher is not fed the whole buffer the element was serialised into (a sub-slice or a different buffer)"), site_of(b, upd[0][0]))
+    dom = b.dominators()
+    okd = flow.dominates(dom, ser[0][0], upd[0][0])
+    ctx.ob(rule, "hash:serialise-before-absorb", okd, "serialize dominates update" if okd else "the buffer is absorbed before the element was serialised into it", site_of(b, upd[0][0]))
+    ret = flow.expr_of(b, {"cp": [0]}, max_depth=8)
+    okr = ret[0] == "agg" and ret[2][0][0] == "agg" and str(ret[2][0][1]).endswith("'Hash')") and ret[2][0][2][0][0] == "call" and ret[2][0][2][0][1].endswith("Digest::finalize") and ret[2][0][2][0][2][0] == ua[0]
+    ctx.ob(rule, "hash:returns-finalize-of-that-hasher", okr, "Hash(sha.finalize())" if okr else "the returned hash is not the finalisation of the hasher that absorbed the elements", site_of(b, fin[0][0]))
+    for name, need_assert in (("compute_hash", True), ("compute_possibly_empty_hash", False)):
+        w = facts.bodies.get(H + name)
+        if w is None:
+            ctx.missing(rule, name)
+            continue
+        ctx.count(bodies=1)
+        r = flow.expr_of(w, {"cp": [0]}, max_depth=8)
+        ok = r == ("proj", ("call", H + "compute_hash_internal", (("arg", 1),)), 0)
+        ctx.ob(rule, f"{name}:forwards-whole-input", ok, "compute_hash_internal(input).0" if ok else "the wrapper does not return the hash of its whole argument", site_of(w))
+        if need_assert:
+            pan = [bb for bb, t in w.calls() if re.search(r"panicking::panic", F.callee(t)[0] or "")]
+            g = [f for tgt, f in flow.edge_guards(w) if f[1] is not None and "compute_hash_internal" in str(f[1])]
+            oka = bool(pan) and bool(g)
+            ctx.ob(rule, "compute_hash:refuses-empty-input", oka, "an empty input panics (no fail-open hash of nothing)" if oka else "compute_hash no longer refuses an empty input: a check that hashes an empty table passes trivially", site_of(w))
+    h2f = facts.bodies.get(H + "hash_to_field")
+    if h2f is None:
+        return ctx.missing(rule, "hash_to_field")
+    ctx.count(bodies=1)
+    ch = [(bb, t) for bb, t in h2f.calls() if (F.callee(t)[0] or "").endswith("hashing::compute_hash")]
+    ok = False
+    if len(ch) == 1:
+        e = flow.expr_of(h2f, ch[0][1]["args"][0], max_depth=8)
+        ok = e[0] == "agg" and e[1] == "array" and tuple(e[2]) == (("arg", 1), ("arg", 2))
+    ctx.ob(rule, "hash_to_field:combines-both-hashes", ok, "compute_hash([left, right])" if ok else "the challenge is not derived from both hashes (left, right) in this order: one verifier's view does not bind it", site_of(h2f, ch[0][0]) if ch else site_of(h2f))
